@@ -28,6 +28,9 @@ pub enum SK {
     /// waiting (timeout, select); the peer's acknowledgement arrives for a send nobody awaits any more
     Q1Abandon,
     Q2Abandon,
+    /// a streamed QoS 1 publish (2 bytes, one chunk) and an ordinary QoS 1 send whose futures are both created before
+    /// either is polled, then polled together
+    StreamJoin,
     /// two QoS 1 send futures created back to back and only then polled together (`join`): both are "awaiting
     /// sends" of one task, e.g. `join!(a.send_at_least_once(..), b.send_at_least_once(..))`
     Q1Join,
@@ -301,6 +304,18 @@ async fn run_sender_v5(sink: ntex_mqtt::v5::MqttSink, kind: SK, j: usize, app: A
             };
             push(if first { "resolved-at-once".into() } else { "abandoned".into() });
         }
+        SK::StreamJoin => {
+            let (f1, pl) = sink.publish(bs(&format!("s{j}"))).stream_at_least_once(2);
+            let f2 = sink.publish(bs("t")).send_at_least_once(by(&[tag(j)]));
+            let feeder = async move {
+                let r = pl.send(by(&[0xD0, 0xD1])).await;
+                drop(pl);
+                r
+            };
+            let ((r1, r2), _r3) = ntex_util::future::join(ntex_util::future::join(f1, f2), feeder).await;
+            push(if r1.is_ok() { "ok".into() } else { format!("err:{:?}", r1.err()) });
+            push(if r2.is_ok() { "ok".into() } else { format!("err:{:?}", r2.err()) });
+        }
         SK::Q1Join => {
             let f1 = sink.publish(bs("t")).send_at_least_once(by(&[tag(j)]));
             let f2 = sink.publish(bs("t")).send_at_least_once(by(&[tag(j)]));
@@ -555,6 +570,18 @@ async fn run_sender_v3(sink: ntex_mqtt::v3::MqttSink, kind: SK, j: usize, app: A
                 std::future::poll_fn(|cx| std::task::Poll::Ready(fut.as_mut().poll(cx).is_ready())).await
             };
             push(if first { "resolved-at-once".into() } else { "abandoned".into() });
+        }
+        SK::StreamJoin => {
+            let (f1, pl) = sink.publish(bs(&format!("s{j}"))).stream_at_least_once(2);
+            let f2 = sink.publish(bs("t")).send_at_least_once(by(&[tag(j)]));
+            let feeder = async move {
+                let r = pl.send(by(&[0xD0, 0xD1])).await;
+                drop(pl);
+                r
+            };
+            let ((r1, r2), _r3) = ntex_util::future::join(ntex_util::future::join(f1, f2), feeder).await;
+            push(if r1.is_ok() { "ok".into() } else { format!("err:{:?}", r1.err()) });
+            push(if r2.is_ok() { "ok".into() } else { format!("err:{:?}", r2.err()) });
         }
         SK::Q1Join => {
             let f1 = sink.publish(bs("t")).send_at_least_once(by(&[tag(j)]));
